@@ -1,16 +1,90 @@
 """Lazy container of the engines for one analysed tree."""
 from __future__ import annotations
 
+import time
 from functools import cached_property
 from pathlib import Path
+
+from .core import AnalysisError, PKG
 
 
 class Ctx:
     def __init__(self, root: Path):
         self.root = Path(root)
+        self.timings: dict[str, float] = {}
 
     @cached_property
     def py(self):
         from .pyindex import PyIndex
 
-        return PyIndex(self.root)
+        t = time.time()
+        ix = PyIndex(self.root)
+        self.timings["pyindex"] = time.time() - t
+        return ix
+
+    @cached_property
+    def tables(self):
+        from .charclass import Tables
+
+        t = time.time()
+        tb = Tables()
+        self.timings["tables"] = time.time() - t
+        return tb
+
+    @cached_property
+    def chars(self):
+        from .charclass import CharInterp
+
+        return CharInterp(self.py, self.tables)
+
+    @cached_property
+    def jinja(self):
+        from .jinja_interp import JinjaIndex
+
+        return JinjaIndex(self.py)
+
+    @cached_property
+    def flow(self):
+        """(python interpreter, template interpreter) at their joint fixpoint."""
+        from .absint import Interp
+        from .jinja_interp import JinjaInterp
+        from .domain import WORD
+
+        t = time.time()
+        it = Interp(self.py)
+        # E6 establishes which helpers are sanitisers (their result alphabet contains nothing that can break a context)
+        danger = 0
+        for ch in "\"'\\\n\r{}#`$/\x00":
+            danger |= 1 << ord(ch)
+        self.sanitizer_charsets: dict[str, int] = {}
+        for fn in ("sanitize", "snake_case", "pascal_case", "kebab_case"):
+            q = f"{PKG}.utils.{fn}"
+            f = it.func_by_qual.get(q)
+            if f is None:
+                continue
+            try:
+                out, _ = self.chars.run_function(f, {"value": self.chars.TOP})
+            except AnalysisError:
+                continue
+            from .charclass import S
+
+            if isinstance(out, S) and not (out.any & danger):
+                it.sanitizers[q] = WORD
+                self.sanitizer_charsets[q] = out.any
+        it.run(24)
+        ji = JinjaInterp(self.jinja, it)
+        outer = 0
+        while True:
+            outer += 1
+            jr = ji.run()
+            before = (dict(it.params), dict(it.fields), dict(it.rets))
+            it.changed = False
+            it.run(24)
+            if (dict(it.params), dict(it.fields), dict(it.rets)) == before:
+                break
+            ji._collect_bridge()
+            if outer > 6:
+                raise AnalysisError("python/template joint fixpoint not reached")
+        self.timings["flow"] = time.time() - t
+        self.flow_rounds = (it.rounds, outer)
+        return it, ji
